@@ -317,7 +317,23 @@ def overflow_capacity_formula(ctx, rid):
             minf = any(x.endswith("Iterator::min") or x.endswith("Ord::min") for x in calls)
             top_add = e[0] == "bin" and e[1] == "Add"
             has_mul = "op:Mul" in calls
-            if e[0] == "bin" and e[1] == "Sub" and has_mul:
+            # the factor "number of service trips" counts trips (a sum of the per-type list lengths), not the per-type map's entries
+            def _mul_operands(x, acc):
+                if x[0] == "bin":
+                    if x[1] == "Mul":
+                        acc.append(x)
+                    for y in x[2:]:
+                        if isinstance(y, tuple):
+                            _mul_operands(y, acc)
+                elif x[0] == "call":
+                    for y in x[2]:
+                        _mul_operands(y, acc)
+                return acc
+            muls = _mul_operands(e, [])
+            map_len = any(any(cc.endswith("HashMap::len") for cc in shape.calls_of(m)) for m in muls)
+            if map_len and has_mul:
+                verdicts.append(("bad", c, "the number of service trips is taken as the number of ENTRIES of the per-type map (= vehicle types): %s" % shape.show(e)[:160]))
+            elif e[0] == "bin" and e[1] == "Sub" and has_mul:
                 verdicts.append(("bad", c, "the maintenance tracks are subtracted: %s" % shape.show(e)))
             elif minf and not maxf and has_mul:
                 verdicts.append(("bad", c, "the SMALLEST formation count over the types is used: %s" % shape.show(e)))
